@@ -66,7 +66,7 @@ func TestC03(t *testing.T) {
 				persisted := w.store.at(k, initial)
 				// second run: same (complete) server log, fresh trace
 				w2 := &world{logs: w.logs, head: map[string]int{}, pub: map[string]int{}, base: w.base, byTag: w.byTag, date: w.date,
-					sliceLimit: w.sliceLimit, tooLongGap: w.tooLongGap, chTooLong: w.chTooLong, complete: true, seq: w.seq}
+					sliceLimit: w.sliceLimit, tooLongGap: w.tooLongGap, chTooLong: w.chTooLong, complete: true, seq: w.seq, withMin: w.withMin, hasherDown: w.hasherDown}
 				for s, es := range w.logs {
 					w2.head[s] = w.base[s]
 					if len(es) > 0 {
